@@ -435,12 +435,13 @@ for _p in ('C01', 'C02', 'C04', 'C06', 'C07', 'C08', 'C13', 'C15', 'C16'):
          'bound': 'file lengths around block/window boundaries x windowsize 1..4 x repeat {1,3} x every single fault (lost / duplicated / stale / swapped datagram at each position); '
                   'transfers of more than 65536 blocks with a fault at the wrap; window sizes 32769 and 65535; 8 and 255 copies per datagram; uploads onto a longer existing file; '
                   'aborted uploads at every point (quick tier: a subset)'})
-for _p in ('C03', 'C05', 'C06', 'C09'):
+for _p in ('C03', 'C05', 'C06', 'C07', 'C09', 'C13'):
     STANDINS.setdefault(_p, []).append(
         {'name': 'listener', 'bin': 'listener', 'extract': False, 'confirm': True, 'tiers': ('thorough',), 'args': {'quick': [_p], 'thorough': [_p]},
          'assumed_contract': 'none assumed: one listener iteration is under contract; real servers on loopback answer a request catalogue (thorough tier)',
          'bound': '16 server configurations (directories shared/distinct, trailing separator, read-only, overwrite, single-port) x escape names, absolute paths, missing / existing files, '
-                  'option negotiation incl. unhonourable and truncating values, about 250 hostile datagrams each followed by a valid request'})
+                  'option negotiation incl. unhonourable and truncating values, about 250 hostile datagrams each followed by a valid request, aborted overwrite, '
+                  'a peer that falls silent in the middle of an upload (multi-port and single-port)'})
 
 
 def replay_dir():
